@@ -156,7 +156,7 @@ impl Prop for C03 {
                 continue;
             }
             st.sub();
-            dynp::reset_steps(20_000_000);
+            dynp::reset_steps(GLR_STEPS);
             let real = match guarded(|| dynp::glr_parse(inp, RunOpts::default(), 400, true)) {
                 Ok(r) => r,
                 Err(p) => return panic_outcome(&format!("glr-parse|{fam}"), &p),
